@@ -41,6 +41,9 @@ def wrappers(doc: str):
     yield "\n".join(("- > " if i == 0 else "  > ") + l for i, l in enumerate(lines))
     yield "\n".join(("> - " if i == 0 else ">   ") + l for i, l in enumerate(lines))
     yield "\n".join(["> " + l for l in lines[:-1]] + [">"])
+    # ... and with two containers open when the input ends on the bare marker (an item inside a quote, a quote inside an item)
+    yield "\n".join([("> - " if i == 0 else ">   ") + l for i, l in enumerate(lines[:-1])] + [">"])
+    yield "\n".join([("- > " if i == 0 else "  > ") + l for i, l in enumerate(lines[:-1])] + ["  >"])
 
 
 def wrapped_docs(k: int, vocab=None):
@@ -74,6 +77,20 @@ def emph_docs(k: int):
 
 def gen_emph(tier):
     yield from emph_docs(5 if tier == "quick" else 7)
+
+
+NESTED_TAG_ALPHABET = ["[", "](x)", "<u:v>", "*", "*a", "**", "~~", "~~a", "_", " "]
+
+
+def gen_emph_links(tier):
+    """delimiter runs around and inside link labels that themselves hold an autolink (two tag levels: the delimiter list of
+    the paragraph must come back after the outer link closes)"""
+    k = 5 if tier == "quick" else 6
+    for n in range(1, k + 1):
+        for parts in itertools.product(NESTED_TAG_ALPHABET, repeat=n):
+            d = "".join(parts)
+            if "<u:v>" in d and "[" in d:
+                yield d
 
 
 def random_docs(n: int, seed: int, max_lines=8, vocab=None):
